@@ -463,7 +463,7 @@ theorem hb_wsDrop {w : World} (c : Nat) (h : HBX n x w) : HBX n x (wsDrop w c) :
   try dsimp only
   split
   · hb_auto
-  · split <;> hb_auto
+  · split <;> (try split) <;> hb_auto
 
 /-! ### the application -/
 
